@@ -13,11 +13,15 @@ Record tight_params := mkTP {
   tp_pack24 : bool;    (* cl->tightUsePixelFormat24 *)
   tp_be : bool;        (* client format big endian (server is little endian) *)
   tp_rs : Z; tp_gs : Z; tp_bs : Z;
-  tp_conf : Z          (* index into tightConf after the level clamping of SendRectEncodingTight *)
+  tp_conf : Z;         (* index into tightConf after the level clamping of SendRectEncodingTight *)
+  tp_jpeg : bool;      (* the client set a quality level (turboQualityLevel != -1) *)
+  tp_s8 : bool         (* the server framebuffer has 8 bits per pixel: SendJpegRect falls back to full colour *)
 }.
 
-(* tightCompressLevel after the clamping for turboQualityLevel = -1 *)
-Definition tight_conf_index (level : Z) : Z := if 1 <? level then 1 else level.
+(* tightCompressLevel after the clamping of SendRectEncodingTight (the later "9 -> 3" is dead code) *)
+Definition tight_conf_index (jpeg : bool) (level : Z) : Z :=
+  if jpeg then (if level <? 1 then 1 else if 2 <? level then 2 else level)
+  else (if 1 <? level then 1 else level).
 
 Definition conf_field (conf k : Z) : option Z :=
   if (conf <? 0) || (k <? 0) then None else nth_error c_tightConf (Z.to_nat (conf * 6 + k)).
@@ -130,33 +134,39 @@ Fixpoint opt_all {A} (l : list (option A)) : option (list A) :=
   | None :: _ => None
   end.
 
+(* what SendSubrect emits: a lossless payload, or a JPEG image (not modelled further) *)
+Inductive tight_out :=
+| TPayload (l : list Z)
+| TJpeg.
+
 (* payload of one Tight rectangle (SendSubrect) *)
-Definition tight_subrect (p : tight_params) (w h : nat) (g : grid) : option (list Z) :=
+Definition tight_subrect (p : tight_params) (w h : nat) (g : grid) : option tight_out :=
   let data := concat g in
   let wh := Z.of_nat (w * h) in
   match conf_field (tp_conf p) 0, conf_field (tp_conf p) 1, conf_field (tp_conf p) 2,
-        conf_field (tp_conf p) 3, conf_field (tp_conf p) 4 with
-  | Some monoMin, Some idxZ, Some monoZ, Some rawZ, Some divisor =>
-    let mc0 := wh / divisor in
+        conf_field (tp_conf p) 3, conf_field (tp_conf p) 4, conf_field (tp_conf p) 5 with
+  | Some monoMin, Some idxZ, Some monoZ, Some rawZ, Some divisor, Some palMaxJpeg =>
+    let mc0 := if tp_jpeg p then palMaxJpeg else wh / divisor in
     let maxColors := if (mc0 <? 2) && (monoMin <=? wh) then 2 else mc0 in
     match fill_palette (tp_bypp p) maxColors data with
     | None => None
     | Some PSolid =>
-      match data with d :: _ => Some (128 :: tpixel_bytes p d) | [] => None end
+      match data with d :: _ => Some (TPayload (128 :: tpixel_bytes p d)) | [] => None end
     | Some (PMono bg fg) =>
-      Some ((if monoZ =? 0 then 224 else 80) :: 1 :: 1 :: tpixel_bytes p bg ++ tpixel_bytes p fg ++
-            flat_map (mono_row bg) g)
+      Some (TPayload ((if monoZ =? 0 then 224 else 80) :: 1 :: 1 :: tpixel_bytes p bg ++ tpixel_bytes p fg ++
+            flat_map (mono_row bg) g))
     | Some (PIndexed pal) =>
       match opt_all (map (pal_index pal) data) with
       | None => None
       | Some idxs =>
-        Some ((if idxZ =? 0 then 224 else 96) :: 1 :: (Z.of_nat (length pal) - 1) ::
-              flat_map (tpixel_bytes p) pal ++ idxs)
+        Some (TPayload ((if idxZ =? 0 then 224 else 96) :: 1 :: (Z.of_nat (length pal) - 1) ::
+              flat_map (tpixel_bytes p) pal ++ idxs))
       end
     | Some PFull =>
-      Some ((if rawZ =? 0 then 160 else 0) :: flat_map (tpixel_bytes p) data)
+      if tp_jpeg p && negb (tp_s8 p) then Some TJpeg      (* SendJpegRect *)
+      else Some (TPayload ((if rawZ =? 0 then 160 else 0) :: flat_map (tpixel_bytes p) data))
     end
-  | _, _, _, _, _ => None
+  | _, _, _, _, _, _ => None
   end.
 
 (* SendRectSimple *)
@@ -169,7 +179,8 @@ Definition send_tight (p : tight_params) (x y w h : nat) (scr : grid) : res (lis
       else [(0, 0, w, h)]%nat in
   res_concat (map (fun '(tx, ty, tw, th) =>
                      match tight_subrect p tw th (crop scr (x + tx) (y + ty) tw th) with
-                     | Some pl => Ok [mkW (x + tx) (y + ty) tw th c_encTight pl]
+                     | Some (TPayload pl) => Ok [mkW (x + tx) (y + ty) tw th c_encTight pl]
+                     | Some TJpeg => Ok [mkW (x + tx) (y + ty) tw th c_encTight [144]]   (* control byte only *)
                      | None => Err
                      end) pieces).
 
@@ -177,15 +188,3 @@ Definition send_tight (p : tight_params) (x y w h : nat) (scr : grid) : res (lis
 Definition tight_pack24 (depth rmax gmax bmax : Z) : bool :=
   (depth =? 24) && (rmax =? 255) && (gmax =? 255) && (bmax =? 255).
 
-(* entry point used by the driver.  level < 0: the client sent no compression level.
-   With LastRect enabled and a rectangle of at least MIN_SPLIT_RECT_SIZE pixels the server runs
-   the solid-area search, which is not modelled: Err.  quality < 0: no quality level was sent. *)
-Definition send_tight_top (bypp : nat) (depth be rmax gmax bmax rs gs bs level quality : Z) (lastrect : bool)
-           (x y w h : nat) (scr : grid) : res (list wrect) :=
-  (* quality >= 0: the client asked for JPEG; palette limits and zlib levels differ and JPEG
-     rectangles appear: not modelled (oracle only) *)
-  if (0 <=? quality) || (lastrect && (c_MIN_SPLIT_RECT_SIZE <=? Z.of_nat (w * h))) then Err
-  else
-    let lv := if level <? 0 then c_TIGHT_DEFAULT_COMPRESSION else level in
-    send_tight (mkTP bypp (tight_pack24 depth rmax gmax bmax) (negb (be =? 0)) rs gs bs (tight_conf_index lv))
-               x y w h scr.
